@@ -27,7 +27,7 @@ theorem Move.shape {s s' : Sys} (h : Move c s s') (hwf : DoipSys.WF c s) :
         w.pred c f = true ∧ s'.done = s.done ++ [⟨t, w, w.result f⟩])) := by
   refine ⟨h.buf c, ?_⟩
   cases h with
-  | hold w sk p cl hcl hq e =>
+  | hold w sk p cl hcl _ hq e =>
     refine Or.inl ⟨?_, Or.inl (by rw [e])⟩
     rw [e]; simp [avail, held, hcl]
   | take w sk p cl pre f post hcl hq hpre hf e =>
@@ -399,7 +399,7 @@ theorem closed_stable : Stable c (fun s => s.closed = true) where
   move := by
     intro s s' _ h hp
     cases h with
-    | hold _ _ _ _ _ _ e => rw [e]; exact hp
+    | hold _ _ _ _ _ _ _ e => rw [e]; exact hp
     | take _ _ _ _ _ _ _ _ _ _ _ e => rw [e]; exact hp
     | fail _ _ _ _ _ _ _ _ _ hcls e => rw [e]; exact hcls hp
   deliver := by intro s raw rest _ ho hp; simp [ho] at hp
